@@ -6,6 +6,8 @@
 #include "harness/common.hpp"
 #include "harness/session.hpp"
 #include "sched/vsched.h"
+#include "proofgamefilter.hpp"
+#include "transpositionTable.hpp"
 
 using namespace vh;
 static Result R;
@@ -36,6 +38,8 @@ static std::vector<Script> scripts(int threads) {
         {"S10-kqk-depth2", {H1, th, KQK, "go depth 2", "@await bestmove", "quit"}},
         {"S11-newgame-between", {H1, th, W1, "go depth 1", "@await bestmove", "ucinewgame", PB, "go depth 1", "@await bestmove", "quit"}},
         {"S12-no-legal-move", {H1, th, ST, "go depth 1 searchmoves h8g8", "@await bestmove", "go infinite", "stop", "@await bestmove", "quit"}},
+        {"S14-options-between-then-clock-go", {H1, th, W1, "go depth 1", "@await bestmove", "setoption name Ponder value true", "setoption name BufferTime value 10", PW, "go wtime 60 btime 60", "@await bestmove", "quit"}},
+        {"S15-options-during-then-clock-go", {H1, th, PW, "go infinite", "setoption name Ponder value true", "setoption name BufferTime value 10", "setoption name MultiPV value 2", "stop", "@await bestmove", PB, "go wtime 60 btime 60 winc 1 binc 1", "@await bestmove", "quit"}},
         {"S13-stop-after-finished", {H1, th, W1, "go depth 1", "@await bestmove", "stop", "isready", "@await readyok", PB, "go depth 1", "@await bestmove", "quit"}},
     };
 }
@@ -45,6 +49,8 @@ struct Exec { ses::Transcript t; VsTrace* tr; };
 static VsTrace* sharedTrace = nullptr;
 static long long TICK = 100, HORIZON = 400000;
 static bool TSAN = false;
+static bool FREE = false;     // free-running complement: threads are not scheduled (sampling, reported separately)
+static std::function<void()> childBody;   // alternative child body (worker-pool scenarios)
 
 /** One execution of `script` following the schedule prefix `choices`. */
 static ses::Transcript runScheduled(const std::vector<std::string>& script, const std::vector<int>& choices, int timeoutS = 60) {
@@ -59,9 +65,10 @@ static ses::Transcript runScheduled(const std::vector<std::string>& script, cons
         close(pfd[0]); close(efd[0]);
         dup2(efd[1], 2);
         int devnull = open("/dev/null", O_WRONLY); if (devnull >= 0) dup2(devnull, 1);
-        vs_begin(choices.data(), (int)choices.size(), sharedTrace, TICK, HORIZON);
-        ses::runScriptInChild(script, pfd[1], timeoutS);
-        vs_end();
+        if (!FREE) vs_begin(choices.data(), (int)choices.size(), sharedTrace, TICK, HORIZON);
+        if (childBody) { alarm((unsigned)timeoutS); childBody(); alarm(0); }
+        else ses::runScriptInChild(script, pfd[1], timeoutS);
+        if (!FREE) vs_end(); else { sharedTrace->result = VS_OK; sharedTrace->nPoints = 1; }
         _exit(0);
     }
     close(pfd[1]); close(efd[1]);
@@ -85,7 +92,7 @@ static ses::Transcript runScheduled(const std::vector<std::string>& script, cons
     else if (WIFSIGNALED(st)) { t.signalled = true; t.sig = WTERMSIG(st); if (t.sig == SIGALRM) t.timedOut = true; }
     std::istringstream is(buf); std::string l;
     while (std::getline(is, l)) t.lines.push_back(l);
-    t.stderrTail = ebuf.size() > 4000 ? ebuf.substr(ebuf.size() - 4000) : ebuf;
+    { size_t wpos = ebuf.find("WARNING: ThreadSanitizer"); if (wpos != std::string::npos) t.stderrTail = ebuf.substr(wpos, 6000); else t.stderrTail = ebuf.size() > 4000 ? ebuf.substr(ebuf.size() - 4000) : ebuf; }
     return t;
 }
 
@@ -114,9 +121,25 @@ static bool judge(const Script& sc, int threads, const std::vector<int>& choices
     if (t.timedOut) { R.violation("harness:wall-clock-timeout", ctx + " (token holder blocked outside the scheduler?) " + t.stderrTail.substr(0, 300), rep); return false; }
     if (TSAN && (t.exitStatus == 66 || t.stderrTail.find("ThreadSanitizer") != std::string::npos)) {
         std::string r = t.stderrTail; size_t p = r.find("WARNING: ThreadSanitizer"); if (p != std::string::npos) r = r.substr(p);
-        // signature: the two top frames of the report
+        // signature: the innermost non-runtime frames of the two conflicting accesses
         std::string sig = "data-race";
-        size_t f = r.find(" #0 "); if (f != std::string::npos) { size_t e = r.find('\n', f); std::string fr = r.substr(f + 4, e - f - 4); size_t sp = fr.find(' '); if (sp != std::string::npos) fr = fr.substr(sp + 1); size_t par = fr.find('('); sig += ":" + fr.substr(0, par == std::string::npos ? 60 : par); }
+        size_t pos = 0; int found = 0;
+        while (found < 2 && (pos = r.find(" #0 ", pos)) != std::string::npos) {
+            // walk the frames of this stack until one is not inside the sanitizer runtime / libstdc++ internals
+            size_t p = pos; std::string fn;
+            for (int k = 0; k < 6; k++) {
+                size_t e = r.find('\n', p); if (e == std::string::npos) break;
+                std::string fr = r.substr(p, e - p);
+                size_t sp = fr.find(' ', 4); std::string name = sp == std::string::npos ? fr : fr.substr(sp + 1);
+                size_t par = name.find('('); if (par != std::string::npos) name = name.substr(0, par);
+                size_t sl = name.find(" /"); if (sl != std::string::npos) name = name.substr(0, sl);
+                if (fr.find("libsanitizer") == std::string::npos && fr.find("/c++/") == std::string::npos && !name.empty()) { fn = name; break; }
+                p = e + 1;
+            }
+            if (!fn.empty()) { sig += ":" + fn.substr(0, 70); found++; }
+            pos += 4;
+            size_t nextBlock = r.find("\n\n", pos); if (nextBlock == std::string::npos) break; pos = nextBlock;
+        }
         R.violation(sig, ctx + " : " + r.substr(0, 1500), rep);
         return true;
     }
@@ -206,6 +229,45 @@ int main(int argc, char** argv) {
             }
         }
         return 0;
+    }
+    if (R.part == "free") {
+        // free-running complement (no scheduler): the same session bodies with more threads, a fixed number of repetitions
+        FREE = true;
+        int reps = (int)w.args.getInt("reps", 2); unsigned long long id = 0;
+        for (int th : thr) for (auto& sc : scripts(th)) {
+            if (!only.empty() && (";" + only + ";").find(";" + sc.name.substr(0, sc.name.find('-')) + ";") == std::string::npos) continue;
+            for (int r = 0; r < reps; r++) { if (!w.mine(id++)) continue; W->crumb("free " + sc.name); ses::Transcript t = runScheduled(sc.lines, {}, 120); sharedTrace->fingerprint = id; judge(sc, th, {}, t); }
+        }
+        R.count("evaluations", R.counters["schedules"]); w.finish(R); return 0;
+    }
+    if (R.part == "pool") {
+        // worker-pool scenarios of the utility code: proof-game filter with 3 workers, hash table clear with its 4-thread pool
+        std::vector<std::pair<std::string, std::function<void()>>> bodies = {
+            {"pgfilter-3-workers", []() {
+                std::stringstream a, b; std::streambuf* oc = std::cout.rdbuf(a.rdbuf()); std::streambuf* ol = std::clog.rdbuf(b.rdbuf());
+                std::istringstream is("rnbqkbnr/pppp1ppp/8/4p3/4P3/8/PPPP1PPP/RNBQKBNR w KQkq - 0 2\nrnbqkb1r/pppppppp/5n2/8/8/5N2/PPPPPPPP/RNBQKB1R w KQkq - 2 2\nrnbqkbnr/ppp1pppp/8/3p4/3P4/8/PPP1PPPP/RNBQKBNR w KQkq - 0 2\n");
+                std::ostringstream os; ProofGameFilter pgf(3, 0, false); pgf.filterFens(is, os, false);
+                std::cout.rdbuf(oc); std::clog.rdbuf(ol); }},
+            {"tt-clear-pool", []() { TranspositionTable tt(2 * 1024 * 1024); Move m(Square(1), Square(2), 0); tt.insert(12345, m, TType::T_EXACT, 0, 1, 0); tt.clear(); TranspositionTable::TTEntry e; tt.probe(12345, e); if (e.getType() != TType::T_EMPTY) abort(); }},
+        };
+        unsigned long long id = 0;
+        for (int mode = 0; mode < 2; mode++) for (auto& bd : bodies) {
+            if (!w.mine(id++)) continue;
+            FREE = mode == 1; childBody = bd.second;
+            Script sc{bd.first + (FREE ? "-free" : "-scheduled"), {}};
+            W->crumb(sc.name);
+            ses::Transcript t = runScheduled({}, {}, 300);
+            if (FREE) sharedTrace->fingerprint = id;
+            judge(sc, 0, {}, t);
+            if (!FREE && bound >= 1) {
+                int n = std::min(sharedTrace->nPoints, VS_MAXPOINTS); std::vector<unsigned char> opts(sharedTrace->nOptions, sharedTrace->nOptions + n);
+                long cap = w.args.getInt("poolcap", 60), done = 0;
+                for (int i = 0; i < n && done < cap; i++) for (int alt = 1; alt < opts[(size_t)i] && done < cap; alt++) { std::vector<int> p((size_t)i, 0); p.push_back(alt); ses::Transcript t2 = runScheduled({}, p, 300); judge(sc, 0, p, t2); done++; }
+                if (done >= cap) R.count("pool_alternatives_capped");
+            }
+        }
+        childBody = nullptr; FREE = false;
+        R.count("evaluations", R.counters["schedules"]); w.finish(R); return 0;
     }
     unsigned long long workId = 0;
     for (int th : thr) for (auto& sc : scripts(th)) {
